@@ -233,7 +233,7 @@ class Packetizer(LiteXModule):
         )
         if not aligned:
             header_offset_multiplier = 1 if header_words == 1 else 2
-            self.sync += If(source.ready, sink_d.eq(sink))
+            self.sync += If(sink.valid & sink.ready, sink_d.eq(sink))
             fsm.act("UNALIGNED-DATA-COPY",
                 source.valid.eq(sink.valid | sink_d.last),
                 source.last.eq(sink_d.last),
@@ -247,6 +247,7 @@ class Packetizer(LiteXModule):
                     sink.ready.eq(~source.last),
                     NextValue(fsm_from_idle, 0),
                     If(source.last,
+                        NextValue(sink_d.last, 0),
                         NextState("IDLE")
                     )
                 )
